@@ -159,8 +159,10 @@ func (m *Model) newPassInfo(callPoint func(ssa.CallInstruction) bool, okPoint fu
 						if call, isCall := in.(*ssa.Call); isCall && okPoint(call) {
 							hit = true
 						}
-						if sc := c.Common().StaticCallee(); sc != nil && ci.may[sc] {
-							hit = true
+						for _, cal := range ci.calleesOf(c) {
+							if ci.may[cal] {
+								hit = true
+							}
 						}
 						if hit && !ci.may[fn] {
 							ci.may[fn] = true
@@ -215,8 +217,11 @@ func (ci *consumerInfo) successReturn(b *ssa.BasicBlock) bool {
 		break
 	}
 	if call, ok := v.(*ssa.Call); ok {
-		if sc := call.Call.StaticCallee(); sc != nil && ci.onOK[sc] {
+		if ci.allCallees(call, func(f *ssa.Function) bool { return ci.onOK[f] }) {
 			return false
+		}
+		if ci.okPoint(call) {
+			return false // `return p.expectPeek(X)`: this return succeeds exactly when the point's success edge is taken
 		}
 	}
 	return true
@@ -284,13 +289,10 @@ func (ci *consumerInfo) blockConsumes(b *ssa.BasicBlock, from int) bool {
 			if call, isCall := b.Instrs[i].(*ssa.Call); isCall && ci.strict && ci.okPoint(call) {
 				return true
 			}
-			for _, cal := range ci.calleesOf(c) {
-				if ci.always[cal] || (ci.strict && ci.may[cal]) {
-					return true
-				}
-				if ci.may[cal] && ci.constCallPasses(c, cal) {
-					return true
-				}
+			if ci.allCallees(c, func(cal *ssa.Function) bool {
+				return ci.always[cal] || (ci.strict && ci.may[cal]) || (ci.may[cal] && ci.constCallPasses(c, cal))
+			}) {
+				return true
 			}
 		}
 	}
@@ -301,7 +303,41 @@ func (ci *consumerInfo) calleesOf(c ssa.CallInstruction) []*ssa.Function {
 	if sc := c.Common().StaticCallee(); sc != nil {
 		return []*ssa.Function{sc}
 	}
-	return nil
+	if c.Common().IsInvoke() {
+		return nil
+	}
+	// a function value chosen at run time (`parse := p.a; if c { parse = p.b }; parse(x)`): the module functions the
+	// call graph finds, bound-method wrappers looked through; nil if any target is outside the module
+	var out []*ssa.Function
+	for _, cal := range ci.m.calleesOf(c) {
+		f := cal
+		if f.Synthetic != "" {
+			if o, ok := f.Object().(*types.Func); ok {
+				if real := ci.m.Prog.FuncValue(o); real != nil {
+					f = real
+				}
+			}
+		}
+		if !ci.m.InModule(f) || f.Blocks == nil {
+			return nil
+		}
+		out = append(out, f)
+	}
+	return out
+}
+
+// allCallees: predicate holds for every possible callee of the call (and there is at least one).
+func (ci *consumerInfo) allCallees(c ssa.CallInstruction, pred func(*ssa.Function) bool) bool {
+	cs := ci.calleesOf(c)
+	if len(cs) == 0 {
+		return false
+	}
+	for _, f := range cs {
+		if !pred(f) {
+			return false
+		}
+	}
+	return true
 }
 
 // edgeConsumes: taking edge pred->succ implies consumption: the true edge of
@@ -315,7 +351,7 @@ func (ci *consumerInfo) edgeConsumes(pred, succ *ssa.BasicBlock) bool {
 			if !f.Holds && ci.failPoint != nil && ci.failPoint(vc) {
 				return true
 			}
-			if sc := vc.Call.StaticCallee(); sc != nil && ci.onOK[sc] && f.Holds {
+			if f.Holds && ci.allCallees(vc, func(fn *ssa.Function) bool { return ci.onOK[fn] }) {
 				return true
 			}
 			continue
@@ -339,7 +375,7 @@ func (ci *consumerInfo) edgeConsumes(pred, succ *ssa.BasicBlock) bool {
 			if !ok || !k.IsNil() {
 				continue
 			}
-			if sc := call.Call.StaticCallee(); sc != nil && ci.onOK[sc] && (c.Op == token.NEQ) == f.Holds {
+			if (c.Op == token.NEQ) == f.Holds && ci.allCallees(call, func(fn *ssa.Function) bool { return ci.onOK[fn] }) {
 				return true
 			}
 			if ci.failPoint != nil && ci.failPoint(call) && (c.Op == token.EQL) == f.Holds {
@@ -1082,6 +1118,18 @@ func (pc *progressCtx) parEval(S int64) condEval {
 						val = !val
 					}
 					return true, val
+				}
+			}
+		}
+		// any other condition: evaluate it in the stable state (pure helpers of the parser are followed)
+		if _, isCall := v.(*ssa.Call); !isCall {
+			ip := pc.m.parserInterp(S, S, pc.pm.precLit, func(field string, tok int64) bool {
+				_, reg := registered(field)[pc.tokName[tok]]
+				return reg
+			})
+			if res, ok := ip.EvalValue(v, 0); ok {
+				if c, isC := res.(constant.Value); isC && c.Kind() == constant.Bool {
+					return true, constant.BoolVal(c)
 				}
 			}
 		}
